@@ -26,9 +26,12 @@ func (es *ChildEventScope) Trigger(eID interface{}, data interface{}) (err error
 	if err = es.parent.Trigger(eID, data); err != nil {
 		return err
 	}
+	// the listeners run outside the lock (a listener may register another one); the
+	// lists only ever grow by append, so the slice read under the lock is a snapshot
 	es.mu.RLock()
-	defer es.mu.RUnlock()
-	for _, onFunc := range es.callbacks[eID] {
+	callbacks := es.callbacks[eID]
+	es.mu.RUnlock()
+	for _, onFunc := range callbacks {
 		if err := onFunc(data); err != nil {
 			return err
 		}
